@@ -4,6 +4,7 @@ package main
 // of a config, observed through the verif hook; identities are renumbered per case.
 
 import (
+	"regexp"
 	"fmt"
 	"runtime"
 	"runtime/debug"
@@ -11,6 +12,7 @@ import (
 	"strings"
 
 	ucfg "github.com/elastic/go-ucfg"
+	"github.com/elastic/go-ucfg/cfgutil"
 	"github.com/elastic/go-ucfg/parse"
 )
 
@@ -200,7 +202,12 @@ func buildSource(r *Rng, data map[string]interface{}, mode int, opts []ucfg.Opti
 		if mode == 6 {
 			from = map[string]interface{}{"x": c, "x.n.zz": "deep", "x.e": map[string]interface{}{"k": true}, "x.l.5": "far"}
 		}
-		return c10Source{cfg: c, from: from, embedded: true, how: "root config in a map, extended by dotted keys"}, true
+		how := "root config in a map, extended by dotted keys"
+		if r.Bool() {
+			from["x"] = *c // held by value: not addressable, taken as a copy of the header
+			how = "root config BY VALUE in a map, extended by dotted keys"
+		}
+		return c10Source{cfg: c, from: from, embedded: true, how: how}, true
 	default: // a root config in a struct field
 		c, err := ucfg.NewFrom(data, opts...)
 		if err != nil {
@@ -300,6 +307,7 @@ func genC10(g *Gen) {
 	}
 	aliasCases(g, tc)
 	indepCases(g, tc)
+	collectorCases(g, tc)
 }
 
 // indepCases: configs whose root (or the child that is merged into) is a LIST: no dictionary
@@ -426,10 +434,98 @@ func indepCases(g *Gen, tc TreeCfg) {
 	}
 }
 
+// collectorCases: configs added to a cfgutil.Collector (what the flag package accumulates with) are
+// sources like any other: they stay as they were, also the first one, and later Adds and writes
+// on the collected config do not show through them
+func collectorCases(g *Gen, tc TreeCfg) {
+	r := g.R
+	data := func(c *ucfg.Config, opts []ucfg.Option) string {
+		out := map[string]interface{}{}
+		u, err := unpackAny(c, opts...)
+		if err != nil {
+			out["data"] = "error: " + err.Error()
+		} else {
+			out["data"] = u
+		}
+		var keys []interface{}
+		for _, k := range c.FlattenedKeys(opts...) {
+			keys = append(keys, k)
+		}
+		out["keys"] = keys
+		return coqOTree(out)
+	}
+	for i := 0; i < 8; i++ {
+		opts := []ucfg.Option{ucfg.PathSep(".")}
+		if p := policyOpts[r.Intn(len(policyOpts))]; p.opt != nil {
+			opts = append(opts, p.opt)
+		}
+		s1, e1 := ucfg.NewFrom(randMap(r, tc, 0), ucfg.PathSep("."))
+		s2, e2 := ucfg.NewFrom(randMap(r, tc, 0), ucfg.PathSep("."))
+		if e1 != nil || e2 != nil {
+			continue
+		}
+		var init *ucfg.Config
+		if r.P(1, 3) {
+			init = ucfg.New()
+		}
+		col := cfgutil.NewCollector(init, opts...)
+		add := func(what, before, after string) {
+			g.Add(Case{Coq: fmt.Sprintf("CIndep10 %s %s %s", coqStr(what), before, after),
+				Desc: map[string]interface{}{"kind": "independence", "what": what, "setup": "cfgutil.Collector"}, Tags: []string{"independence", "collector"}, Nontrivial: true})
+		}
+		b1 := data(s1, opts[:1])
+		col.Add(s1, nil)
+		add("the first config around Collector.Add of it", b1, data(s1, opts[:1]))
+		b2 := data(s2, opts[:1])
+		col.Add(s2, nil)
+		add("the first config around Collector.Add of a second one", b1, data(s1, opts[:1]))
+		add("the second config around Collector.Add of it", b2, data(s2, opts[:1]))
+		if cc := col.Config(); cc != nil {
+			cc.SetString("zz_written", -1, "later", opts[:1]...)
+			cc.SetString("a.zz", -1, "later", opts[:1]...)
+			add("the first config around a write on the collected config", b1, data(s1, opts[:1]))
+			add("the second config around a write on the collected config", b2, data(s2, opts[:1]))
+		}
+	}
+}
+
 // aliasCases: merging into a setting of the destination that is a reference to another setting
 // must leave that other setting alone (the merge goes into the reference's own value).
 func aliasCases(g *Gen, tc TreeCfg) {
 	r := g.R
+	// two settings of the destination that are references to one namespace, both merged into by one
+	// call: each is merged with what it stands for (neither sees the other's evaluation as a cycle)
+	for i := 0; i < 6; i++ {
+		opts := []ucfg.Option{ucfg.PathSep("."), ucfg.VarExp}
+		base := randMap(r, tc, 1)
+		base["k"] = uint64(1)
+		ext := map[string]interface{}{"y": randScalar(r)}
+		dstData := map[string]interface{}{"base": base, "a": "${base}", "b": "${base}", "c": "${base}"}
+		srcData := map[string]interface{}{"a": ext, "b": ext, "c": ext}
+		dst, err := ucfg.NewFrom(dstData, opts...)
+		if err != nil {
+			continue
+		}
+		if p, _ := guard(func() { err = dst.Merge(srcData, opts...) }); p || err != nil {
+			continue
+		}
+		sub := func(name string) string {
+			ch, err := dst.Child(name, -1, opts...)
+			if err != nil || ch == nil {
+				return "(OStr " + coqStr(fmt.Sprint("no child: ", err)) + ")"
+			}
+			u, err := unpackAny(ch, opts...)
+			if err != nil {
+				return "(OStr " + coqStr("error: "+err.Error()) + ")"
+			}
+			return coqOTree(u)
+		}
+		for _, n := range []string{"b", "c"} {
+			g.Add(Case{Coq: fmt.Sprintf("CIndep10 %s %s %s", coqStr("two references to one namespace, merged into alike: a and "+n), sub("a"), sub(n)),
+				Desc: map[string]interface{}{"kind": "independence", "what": "a: ${base}, " + n + ": ${base}, both merged with the same object", "dst": descTree(dstData), "src": descTree(srcData)},
+				Tags: []string{"independence", "two-references"}, Nontrivial: true})
+		}
+	}
 	for i := 0; i < g.N/5+4; i++ {
 		opts := []ucfg.Option{ucfg.PathSep("."), ucfg.VarExp}
 		x := randMap(r, tc, 1)
@@ -491,6 +587,7 @@ type c11Captured struct {
 	L    []interface{}           `config:"l" alt:"l"`
 	N    map[string]interface{}  `config:"n" alt:"n"`
 	Z    *int                    `config:"z" alt:"m.j"` // a null setting (its metadata may differ from its namespace's)
+	Re   *regexp.Regexp          `config:"re" alt:"re"` // compiled from a plain string setting on every read
 }
 
 type c11Read struct {
@@ -565,6 +662,17 @@ func c11Reads() []c11Read {
 			err := c.Unpack(st.captured, append(append([]ucfg.Option{}, o...), ucfg.StructTag("alt"))...)
 			return "alt:" + resErr(err)
 		}},
+		c11Read{"Unpack compiled values twice (fresh targets): what one reader does with its regexp does not show in the other's", func(c *ucfg.Config, o []ucfg.Option, _ *c11State) string {
+			var t1, t2 c11Captured
+			e1 := c.Unpack(&t1, o...)
+			e2 := c.Unpack(&t2, o...)
+			if e1 != nil || e2 != nil || t1.Re == nil || t2.Re == nil {
+				return "no regexp" + resErr(e1) + resErr(e2)
+			}
+			before := t2.Re.FindString("aaab")
+			t1.Re.Longest()
+			return fmt.Sprintf("%q then %q same=%v", before, t2.Re.FindString("aaab"), t1.Re == t2.Re)
+		}},
 		c11Read{"merge source", func(c *ucfg.Config, o []ucfg.Option, _ *c11State) string {
 			d := ucfg.New()
 			err := d.Merge(c, o...)
@@ -614,6 +722,9 @@ func descCaptured(t *c11Captured) string {
 		}
 	}
 	b.WriteString(" a=" + t.A + " l=" + descTree(t.L) + " n=" + descTree(t.N))
+	if t.Re != nil {
+		b.WriteString(" re=" + t.Re.String())
+	}
 	return b.String()
 }
 
@@ -628,7 +739,7 @@ func genC11(g *Gen) {
 			"a": randScalar(r), "b": "${a}", "s": map[string]interface{}{"x": randTree(r, tc, 1), "r": "${a}-${s.x:d}"},
 			"m": map[string]interface{}{"k": randMap(r, tc, 1), "j": nil}, "l": []interface{}{randTree(r, tc, 1), nil, "${l.0:e}"},
 			"n": randMap(r, tc, 0), "z": nil, "r": "${res}", "q": "${obj}", "o": "${obj}", "p": "${lst}",
-			"o2": "${s}", "o3": "${m}",
+			"o2": "${s}", "o3": "${m}", "re": []string{"a+?", "a+?b??", "(a|aa)"}[r.Intn(3)],
 		}
 		if r.P(1, 3) {
 			data["n"] = nil
@@ -668,8 +779,8 @@ func genC11(g *Gen) {
 		var seq [][2]string
 		for j := 0; j < k; j++ {
 			rd := reads[r.Intn(len(reads))]
-			if r.P(2, 5) { // the whole-config reads (Unpack, merge source, ...) are the last 16
-				rd = reads[len(reads)-16+r.Intn(16)]
+			if r.P(2, 5) { // the whole-config reads (Unpack, merge source, ...) are the last 17
+				rd = reads[len(reads)-17+r.Intn(17)]
 			}
 			before := snapshotNoReads(c, ren)
 			var r1, r2 string
@@ -691,6 +802,32 @@ func genC11(g *Gen) {
 				Desc: map[string]interface{}{"kind": "read", "read": rd.name, "config": before.desc, "after": after.desc, "result": r1, "result again": r2,
 					"replay": map[string]interface{}{"data": encTree(data)}},
 				Tags: []string{"read:" + strings.SplitN(rd.name, " ", 2)[0]}, Nontrivial: true})
+		}
+		// an Option value that is made once and used in several calls, alone and combined with
+		// another one: what it means does not depend on the calls it was used in before
+		{
+			optA, optB := ucfg.FieldAppendValues("l"), ucfg.FieldPrependValues("p")
+			run := func(o ...ucfg.Option) string {
+				// the config as a merge source for a destination that holds lists already
+				d, err := ucfg.NewFrom(map[string]interface{}{"l": []interface{}{"pre"}, "p": []interface{}{"pre"}}, ucfg.PathSep("."))
+				if err != nil {
+					return "not built"
+				}
+				err = d.Merge(c, append(append([]ucfg.Option{}, opts...), o...)...)
+				return descValue(ucfg.VerifDump(d).Dict["l"]) + " " + descValue(ucfg.VerifDump(d).Dict["p"]) + resErr(err)
+			}
+			before := snapshotNoReads(c, ren)
+			var r0, r1 string
+			p, m := guard(func() { r0 = run(optA); run(optA, optB); r1 = run(optA) })
+			if p {
+				r1 = "PANIC " + m
+			}
+			after := snapshotNoReads(c, ren)
+			name := "merge source with a reused per-field option, before and after a call that combined it with another one"
+			g.Add(Case{Coq: fmt.Sprintf("CRead11 %s %s %s %s %s", coqStr(name), before.coq, after.coq, coqStr(r0), coqStr(r1)),
+				Desc: map[string]interface{}{"kind": "read", "read": name, "config": before.desc, "after": after.desc, "result": r0, "result again": r1,
+					"replay": map[string]interface{}{"data": encTree(data)}},
+				Tags: []string{"read:reused-option"}, Nontrivial: true})
 		}
 		// the stateless reads again, all at once from several goroutines
 		var pure []c11Read
